@@ -267,20 +267,48 @@ CANON = {
 }
 
 
+def _reference():
+    global LOCAL_NAMES
+    import json, os
+    if LOCAL_NAMES is None:
+        p = os.path.join(os.path.dirname(os.path.dirname(os.path.dirname(os.path.abspath(__file__)))), "rules", "local_names.json")
+        LOCAL_NAMES = json.load(open(p)) if os.path.exists(p) else {}
+        for k, d in (("functions", []), ("signatures", {}), ("roles", {}), ("locals", {})):
+            LOCAL_NAMES.setdefault(k, d)
+    return LOCAL_NAMES
+
+
 def canonicalise(ctx):
-    """give the function filling each role its reference name throughout the facts (a renamed helper changes nothing for the rules)"""
+    """Present the functions of this tree under the paths the reviewed tree gives them: (1) the function filling each role gets the
+    role's reference path (a renamed or moved helper changes nothing for the rules); (2) a function the reference does not know whose
+    signature equals that of exactly one reference function that is gone is taken to be that function, renamed or moved."""
+    ref = _reference()
     mapping = {}
     taken = {}
     for rname, canon in CANON.items():
         b = role(ctx, rname)
         if b is not None:
-            taken[(b["crate"], canon)] = b["path"]
-            if b["name"] != canon:
-                mapping[b["path"]] = "::".join(b["path"].split("::")[:-1] + [canon])
-    # a different local function that carries a reference name must not be taken for the role
+            want = ref["roles"].get(rname) or "::".join(b["path"].split("::")[:-1] + [canon])
+            taken[(b["crate"], want)] = b["path"]
+            if b["path"] != want:
+                mapping[b["path"]] = want
+    present = {(b["crate"], b["path"]) for b in ctx.facts.hir}
+    if ref["functions"]:
+        known = set(ref["functions"])
+        users = [b for b in ctx.facts.hir if b["crate"] in (VISITOR_CRATE, PLUGIN_CRATE) and not b.get("mac")]
+        gone = [f for f in ref["functions"] if tuple(f.split("::", 1)) not in present and f.split("::", 1)[1] not in mapping.values()]
+        new = [b for b in users if (b["crate"] + "::" + b["path"]) not in known and b["path"] not in mapping and not b.get("impl_trait")]
+        for b in new:
+            sig = [b["inputs"], b["output"]]
+            cands = [f for f in gone if f.startswith(b["crate"] + "::") and ref["signatures"].get(f) == sig]
+            twins = [x for x in new if [x["inputs"], x["output"]] == sig]
+            if len(cands) == 1 and len(twins) == 1:
+                mapping[b["path"]] = cands[0].split("::", 1)[1]
+                taken[(b["crate"], mapping[b["path"]])] = b["path"]
+    # a different local function that sits on a path that is about to be taken must not be confused with it
     for b in ctx.facts.hir:
-        if b["crate"] in (VISITOR_CRATE, PLUGIN_CRATE) and not b.get("mac") and (b["crate"], b.get("name")) in taken \
-                and taken[(b["crate"], b["name"])] != b["path"] and b["path"] not in mapping and not b.get("impl_trait"):
+        if b["crate"] in (VISITOR_CRATE, PLUGIN_CRATE) and not b.get("mac") and (b["crate"], b["path"]) in taken \
+                and taken[(b["crate"], b["path"])] != b["path"] and b["path"] not in mapping and not b.get("impl_trait"):
             mapping[b["path"]] = b["path"] + "_other"
     if mapping:
         ctx.facts.rename_paths(mapping)
@@ -306,12 +334,8 @@ def canonicalise_locals(ctx):
     """The rules name locals the way the reviewed tree does (rules/local_names.json: per function, the (type, name) pairs in source
     order). A local whose name is unknown to that table is presented under the reference name that no binding of the same type
     carries any more, when that pairing is unambiguous (same number of unmatched names of that type, matched in order)."""
-    global LOCAL_NAMES
-    import json, os
     from ..facts import rename_locals
-    if LOCAL_NAMES is None:
-        p = os.path.join(os.path.dirname(os.path.dirname(os.path.dirname(os.path.abspath(__file__)))), "rules", "local_names.json")
-        LOCAL_NAMES = json.load(open(p)) if os.path.exists(p) else {"functions": [], "locals": {}}
+    _reference()
     done = {}
     for hb in ctx.facts.hir:
         if hb["crate"] not in (VISITOR_CRATE, PLUGIN_CRATE) or hb.get("mac"):
